@@ -773,6 +773,21 @@ class C18(Check):
             seen.add(s)
             self._count("escape")
             yield {"s": s, "exp": None, "u": "mut", "kind": "escape"}
+        # line breaks and every other kind of whitespace before / inside / after rejected (and accepted) strings:
+        # every error position (start, middle, end of string) x every whitespace kind, through match() and matcher()
+        for s in whitespace_family():
+            if s in seen:
+                continue
+            seen.add(s)
+            self._count("wsbreak")
+            yield {"s": s, "exp": None, "u": "mut", "kind": "wsbreak", "matcher": True}
+        # legal inputs at and beyond natural limits (length, nesting depth, number of operands, every character)
+        for s in limits_family(quick):
+            if s in seen:
+                continue
+            seen.add(s)
+            self._count("limits")
+            yield {"s": s, "exp": None, "u": "mut", "kind": "limits", "matcher": True}
         # invalid regular expressions by error class (classified by calling re.compile directly): re.error with a
         # position, re.error without a position (variable-width look-behind), OverflowError; valid ones for contrast
         for s, cls in bad_regex_family():
@@ -831,6 +846,16 @@ class C18(Check):
                 second = [type(e).__name__.encode()] * len(envs)
             return [first, second]
         first = [call(c["s"], env) for env in envs]
+        if c.get("matcher"):
+            # cached use through the public matcher() / Matcher.matches()
+            try:
+                m = SM.matcher(c["s"])
+                second = [call_matcher(m, env) for env in envs]
+            except ValueError:
+                second = [b"ValueError"] * len(envs)
+            except Exception as e:    # noqa
+                second = [type(e).__name__.encode()] * len(envs)
+            return [first, second]
         second = [call(c["s"], env) for env in envs]
         return [first, second]
 
@@ -1053,6 +1078,65 @@ def bad_regex_family():
                 for s in (core, "a or not (" + core + " and b)", core + " or b", "b and " + core, "(" + core + ")",
                           "not " + core + " or (", core + " and"):
                     yield s, cls
+
+
+WS_KINDS = ["\n", "\r\n", "\r", "\x0b", "\x0c", "\x1c", "\x1d", "\x1e", "\x1f", "\x85", "\xa0", "\u2028", "\u2029", "\u3000",
+            " ", "\t", "\n\n", " \n", "\n ", "\n\t\n", "\u200b", "\\n"]
+WS_BASES = ["(abc", "(abc or def", "abc and (def or ghi", "not (abc", "abc and", "abc or", "not", "", "(", ")", "abc)", "abc def",
+            "and abc", "abc and and def", "abc not def", "@id_re@'('", "@id_glob@", "@data_glob:k@", "@data_glob:k", "'abc",
+            "'abc\\", "@x@y", "abc @", "(abc))", "abc and (", "(abc or def) ghi", "@id_re@a{4294967296}", "@id_re@'(?<=a*)b'",
+            "((abc)", "not not", "abc or not", "@data_literal:'k'x@v",
+            "abc", "abc and def", "(abc or def) and not ghi", "not(abc)", "@data_glob:k@v*", "'a b' or \"c\"", "((abc))"]
+
+
+def whitespace_family():
+    for base in WS_BASES:
+        cuts = [i for i in range(len(base) + 1)
+                if i == 0 or i == len(base) or base[i - 1] in " ()@'\":" or base[i] in " ()@'\":"]
+        for w in WS_KINDS:
+            for i in cuts:
+                yield base[:i] + w + base[i:]
+            yield w + base + w
+            yield base.replace(" ", w)
+            yield base.replace(" ", " " + w) + w
+
+
+def limits_family(quick):
+    ns = [255, 256, 257, 2048] + ([] if quick else [4096, 10000])
+    for n in ns:
+        yield "not " + "a" * n
+        yield "*" + "a" * n + " or b*"
+        yield "'" + "a " * n + "'"
+        yield "@data_literal:" + "k" * n + "@v1 or not " + "@data_glob:'" + "k " * n + "'@''"
+        yield "@id_re@" + "a?" * min(n, 1000) + " or a"
+        yield "a" + " " * n + "and" + "\n" * n + "b"
+        yield " " * n + "a" + "\t" * n
+    # number of operands: the parser loops, but evaluation recurses once per operand of a left-nested chain, so
+    # chains beyond Python's recursion limit (~1000 frames) raise RecursionError - stated boundary, kept below it
+    for n in [2, 3, 16, 17, 64, 65, 255, 256, 257, 400]:
+        yield " or ".join(["a", "b"] * (n // 2) + ["c"] * (n % 2))
+        yield " and ".join(["not b"] * n)
+        yield " or ".join(["a and b"] * n)
+        yield " and ".join(["(a or not b)"] * n)
+    for d in [1, 2, 15, 16, 17, 31, 32, 33, 63, 64, 65, 100]:
+        yield "(" * d + "a" + ")" * d
+        yield "( " * d + "a or b" + " )" * d
+        yield "not " * d + "a"
+        yield "not(" * d + "a" + ")" * d
+        yield "(" * d + "a" + ")" * (d - 1)
+        yield "(" * d + "a" + ")" * (d + 1)
+        yield "(a and " * d + "b" + ")" * d
+        yield "a or (" * d + "b" + ")" * d
+    # every character (control, ASCII, Latin-1, some beyond) inside quoted and unquoted patterns and keys
+    cps = list(range(0, 0x100)) + [0x100, 0x130, 0x131, 0x17f, 0x212a, 0x3b1, 0x430, 0x5d0, 0x2000, 0x200b, 0x2028, 0x2029, 0x202f,
+                                   0x205f, 0x3000, 0xfeff, 0xfffd, 0xffff, 0x10000, 0x1f600, 0x10ffff]
+    for cp in cps:
+        ch = chr(cp)
+        yield "x" + ch + "y"
+        yield "'" + quote("x" + ch + "y", SQ)[1:-1] + "'"
+        yield '@id_literal@"' + quote(ch, DQ)[1:-1] + '" or a'
+        yield "@data_literal:'" + quote("k" + ch, SQ)[1:-1] + "'@v or a"
+        yield "@data_literal:k" + ch + "@v or a"
 
 
 def has_bare_keyword(s):
